@@ -1,5 +1,6 @@
 import ScrapliModel.Lemmas.SshCfg
 import ScrapliModel.Generated.SshArgv
+import ScrapliModel.Generated.SshAuth
 /-!
 # C14 — SSH connections honour strict host-key checking and the configured identity
 
@@ -615,5 +616,124 @@ theorem standard_no_in_channel_credentials (a : Args) (s : SSHArgs) :
 theorem system_in_channel_identity (a : Args) (s : SSHArgs) :
     inChannelAuthData .system a s =
       { type := .ssh, user := a.user, password := a.password, passphrase := s.privateKeyPassPhrase } := rfl
+
+/-! ## the configured identity is the one used -/
+
+/-- obligation on the regenerated facts about `openBase`: the auth-method list is declared once
+and from then on only ever extended by `authMethods = append(authMethods, …)` — the key under
+`PrivateKeyPath != ""` first, password and keyboard-interactive under `Password != ""` second —
+and it is what the client configuration's `Auth` is set to.  (An assignment that replaces the
+list, a reordering, a dropped method or another guard makes this fail.) -/
+theorem auth_methods_source_shape :
+    Gen.SshAuth.found = true ∧
+    Gen.SshAuth.authWrites = [b!"define", b!"append-self", b!"append-self"] ∧
+    Gen.SshAuth.authAppends =
+      [(b!"t.SSHArgs.PrivateKeyPath != \"\"", [b!"PublicKeys"]),
+       (b!"a.Password != \"\"", [b!"Password", b!"KeyboardInteractive"])] ∧
+    Gen.SshAuth.authUsed = true := by decide
+
+/-- `offered_methods_spec`: whenever `openBase` reaches `ssh.Dial`, the methods it configures are
+`configuredMethods` of the configuration -/
+theorem offered_methods_spec (a : Args) (s : SSHArgs) (khLoads keyLoads : Bool) (c : ClientCfg)
+    (h : standardCfg a s khLoads keyLoads = .ok c) : c.auth = configuredMethods a s := by
+  have := (standard_policy a s khLoads keyLoads c h).2.2.2.2.2.2
+  rw [this]
+  unfold configuredMethods
+  by_cases hp : s.privateKeyPath = [] <;> by_cases hw : a.password = [] <;> simp [hp, hw]
+
+/-- a configured key is part of the identity whatever the password setting, and it comes first -/
+theorem key_configured_is_offered_first (a : Args) (s : SSHArgs) (hk : s.privateKeyPath ≠ []) :
+    (configuredMethods a s).head? = some (.publicKey s.privateKeyPath) ∧
+    ∀ p, AuthMethod.publicKey s.privateKeyPath ∈ configuredMethods { a with password := p } s := by
+  unfold configuredMethods
+  refine ⟨by simp [hk], fun p => by simp [hk]⟩
+
+/-- a configured password is part of the identity whatever the key setting -/
+theorem password_configured_is_offered (a : Args) (s : SSHArgs) (hw : a.password ≠ []) :
+    AuthMethod.password a.password ∈ configuredMethods a s ∧
+    AuthMethod.keyboardInteractive a.password ∈ configuredMethods a s := by
+  unfold configuredMethods
+  by_cases hp : s.privateKeyPath = [] <;> simp [hp, hw]
+
+theorem attemptsUntil_head (acc : AuthMethod → Bool) (m : AuthMethod) (t : List AuthMethod) :
+    (attemptsUntil acc (m :: t)).head? = some m := by
+  unfold attemptsUntil; split <;> rfl
+
+/-- against a server on which every method is available, a connection that gets past the host
+key offers the configured key first — with or without a password configured — and when the server
+accepts that key the connection is established WITH the key -/
+theorem key_is_used (a : Args) (s : SSHArgs) (keyLoads khLoads : Bool) (v : KhVerdict)
+    (acc : AuthMethod → Bool) (c : ClientCfg) (hk : s.privateKeyPath ≠ [])
+    (hc : standardCfg a s khLoads keyLoads = .ok c) (hv : hostKeyAccepted c.policy v = true) :
+    (standardOpenP a s khLoads keyLoads v (.anyOf acc)).2.head? = some (.publicKey s.privateKeyPath) ∧
+    (acc (.publicKey s.privateKeyPath) = true →
+      (standardOpenP a s khLoads keyLoads v (.anyOf acc)).1 = .established a.user (.publicKey s.privateKeyPath)) := by
+  have hauth := offered_methods_spec a s khLoads keyLoads c hc
+  have huser := (standard_policy a s khLoads keyLoads c hc).2.2.2.2.1
+  have hcons : ∃ t, c.auth = .publicKey s.privateKeyPath :: t := by
+    rw [hauth]; unfold configuredMethods; simp [hk]
+  obtain ⟨t, ht⟩ := hcons
+  unfold standardOpenP
+  simp only [hc, hv, Bool.not_true, Bool.false_eq_true, if_false, authRun, ht]
+  constructor
+  · cases hf : List.find? acc (AuthMethod.publicKey s.privateKeyPath :: t) <;>
+      simp [attemptsUntil_head]
+  · intro hacc
+    simp [List.find?, hacc, huser]
+
+/-- the connection is established iff the server accepts one of the configured credentials
+(every method available), and then with the first configured one it accepts -/
+theorem established_iff_configured_credential_accepted (a : Args) (s : SSHArgs) (keyLoads khLoads : Bool)
+    (v : KhVerdict) (acc : AuthMethod → Bool) (c : ClientCfg)
+    (hc : standardCfg a s khLoads keyLoads = .ok c) (hv : hostKeyAccepted c.policy v = true) :
+    ((∃ m, (standardOpenP a s khLoads keyLoads v (.anyOf acc)).1 = .established a.user m) ↔
+      ∃ m ∈ configuredMethods a s, acc m = true) := by
+  have hauth := offered_methods_spec a s khLoads keyLoads c hc
+  have huser := (standard_policy a s khLoads keyLoads c hc).2.2.2.2.1
+  unfold standardOpenP
+  simp only [hc, hv, Bool.not_true, Bool.false_eq_true, if_false, authRun, hauth]
+  cases hf : List.find? acc (configuredMethods a s) with
+  | none =>
+    simp only [reduceCtorEq, exists_false, false_iff]
+    rintro ⟨m, hm, ha⟩
+    have := List.find?_eq_none.mp hf m hm
+    simp [ha] at this
+  | some m =>
+    simp only [huser]
+    exact ⟨fun _ => ⟨m, List.mem_of_find?_eq_some hf, List.find?_some hf⟩, fun _ => ⟨m, rfl⟩⟩
+
+/-- the one-step policy of `standardOpenP` is `standardOpen` / `standardAttempts` -/
+theorem standardOpenP_anyOf (a : Args) (s : SSHArgs) (khLoads keyLoads : Bool) (v : KhVerdict)
+    (acc : AuthMethod → Bool) :
+    standardOpenP a s khLoads keyLoads v (.anyOf acc) =
+      (standardOpen a s khLoads keyLoads v acc, standardAttempts a s khLoads keyLoads v acc) := by
+  unfold standardOpenP standardOpen standardAttempts
+  cases hc : standardCfg a s khLoads keyLoads with
+  | error e => rfl
+  | ok cfg =>
+    simp only [authRun]
+    cases hh : hostKeyAccepted cfg.policy v <;> simp
+    cases hf : List.find? acc cfg.auth <;> simp
+
+/-- two-step server (key, then password): the connection is established iff both are configured
+and both are good; the key is offered whenever it is configured, the password only after the key
+was accepted -/
+theorem key_then_password (a : Args) (s : SSHArgs) (keyLoads khLoads : Bool) (v : KhVerdict)
+    (keyOk pwOk : Bool) (c : ClientCfg)
+    (hc : standardCfg a s khLoads keyLoads = .ok c) (hv : hostKeyAccepted c.policy v = true) :
+    standardOpenP a s khLoads keyLoads v (.keyThenPassword keyOk pwOk) =
+      if s.privateKeyPath = [] then (.authFailed, [])
+      else if keyOk = false then (.authFailed, [.publicKey s.privateKeyPath])
+      else if a.password = [] then (.authFailed, [.publicKey s.privateKeyPath])
+      else if pwOk then (.established a.user (.password a.password), [.publicKey s.privateKeyPath, .password a.password])
+      else (.authFailed, [.publicKey s.privateKeyPath, .password a.password]) := by
+  have hauth := offered_methods_spec a s khLoads keyLoads c hc
+  have huser := (standard_policy a s khLoads keyLoads c hc).2.2.2.2.1
+  unfold standardOpenP
+  simp only [hc, hv, Bool.not_true, Bool.false_eq_true, if_false, authRun, hauth, huser]
+  unfold configuredMethods
+  by_cases hp : s.privateKeyPath = [] <;> by_cases hw : a.password = [] <;>
+    cases keyOk <;> cases pwOk <;>
+    simp [hp, hw, List.find?, AuthMethod.isPublicKey, AuthMethod.isPassword]
 
 end Scrapli.SshCfg.C14
